@@ -29,6 +29,7 @@ META["text"] += ' (R9 = C03.R3) every ONEAudit pool mean is the assorter total o
 META["text"] += ' R3 also borrows C09.R1: (d, u) come from mvrs_to_data of the samples handed in, so the filter of R4 is the one that decides which cards contribute.'
 META["text"] += " R4: the specified filter is evaluated on the arguments as handed in (a parameter re-bound on the way is part of the code's condition); the value functions keep no state between calls."
 META["text"] += ' (R10, N, frame condition on arguments) the data are computed from the records, which stay as they are: every function in scope changes the objects it is handed only in the ways confirmed for it (aud.ARG_EFFECTS); references are followed through aliases, elements, attributes, loop variables, .get/.items/.values and np.asarray, resolved by the bindings that reach the use.'
+META["text"] += ' R6 also borrows C02.R7 (dispatch): make_all_assertions installs exactly what the factories build, so test.u and assorter.upper_bound were computed together from the contest as it is now.'
 
 SPEC_U = '''
 def spec(at, v, ua):
@@ -90,6 +91,9 @@ def run(chk):
     from . import c02
     chk.borrow(c02.r1_r2_plurality, {"C02.R2": "C06.R6"})
     chk.borrow(c02.r3_supermajority, {"C02.R2": "C06.R6"})
+    # every (re)build of a contest's assertions pairs each assorter with a test configured for *its* bound: an Assertion object kept
+    # from an earlier build keeps the bound of the earlier share_to_win / candidates while its assorter follows the new ones
+    chk.borrow(c02.r7_dispatch, {"C02.R7": "C06.R6"})
     # R7: the bound and the test that the rules above read off an assertion / assorter are the ones it was built with
     aud.ctor_fields(chk, "C06.R7", REL, "Assorter", ["contest", "upper_bound", "tally_pool_means"], "the declared bound is obj.upper_bound")
     aud.ctor_fields(chk, "C06.R7", REL, "Assertion", ["contest", "assorter", "margin", "test"], "u is installed in obj.test, data come from obj.assorter")
